@@ -40,7 +40,7 @@ CHECKS = {
     "C06": dict(category="fault_enumeration", design_ref="DESIGN.md 5 / C06, 9",
                 technique="fault enumeration over well-formed images on the real size_bytes_checked: every truncation point and every corruption of every blockLength/numInGroup/length instance, in a release build on an exact-size buffer ending at a PROT_NONE page with a CPU budget; reference = structural walk with unbounded integers",
                 text="For every image of the bounded space: every n in 0..len (+ trailing junk) and every header-field instance overwritten with 0, 1, fit-1, fit+1, max/2+1, max-1, max; size_bytes_checked(message | top-level group, n) must return (no fault = no read at offset >= n, no budget overrun = work bounded by n) and its (valid, size) must equal the reference walk's. Four genuine defect classes are recorded as known findings; every other disagreement is a violation.",
-                note="Trusted: kernel guard pages, ITIMER_VIRTUAL budget (250 ms for microseconds of legitimate work), the reference walk."),
+                note="Trusted: kernel guard pages, ITIMER_VIRTUAL budget (100 ms for microseconds of legitimate work), the reference walk."),
     "C07": dict(category="exploration", design_ref="DESIGN.md 5 / C07",
                 technique="bounded-exhaustive enumeration of schema families (name-clash assignments over a fixed identifier pool, concatenated-name group forests, string attribute values, numeric literal forms, kinds, catalogue, header layouts); for every schema sbeppc accepts: each emitted header compiled alone, a by-name TU, the complete accessor driver and the traits TU compiled (and name traits compared) on the compiler x standard cells, with warnings enabled so that required diagnostics stay errors",
                 text="Every accepted schema of the families must yield headers that compile on their own and a TU that names every type, enumerator, choice, message and tag at its documented path and calls every accessor form (random access, cursor with every wrapper, by-tag, header fillers); every name trait must equal the schema name whatever clashes exist. Schemas sbeppc rejects are only counted.",
